@@ -104,18 +104,19 @@ theorem c05_hdr_each_guard_needed :
 
 /-- a well-formed detailed-discovery read (payload function 901 of the dispatch model) -/
 def discRead (src dst : List Nat × Nat) (ctr : Nat) : Disp.Dg :=
-  { src := src, dst := dst, ctr := ctr, ref := none, cls := .read, ack := false, fn := 901 }
+  { src := src, dst := dst, ctr := some ctr, ref := none, cls := .read, ack := false, fn := 901 }
 
 /-- C05, second sentence: a valid detailed-discovery read from a connected peer whose source feature is known,
     addressed to the local node-management feature, is answered with exactly one reply that references the
-    read and goes back to its source. -/
+    read, goes back to its source and names the local device — in every member of the dispatch family. -/
 theorem c05_still_serves (w : Disp.W) (p : Nat) (src dst : List Nat × Nat) (ctr : Nat) (rf : Disp.RF) (lf : Disp.LF)
     (hs : Disp.srcF w p (discRead src dst ctr) = some rf) (hd : Disp.dstF w (discRead src dst ctr) = some lf)
     (hnm : lf.nm = true) :
-    (Disp.processCmd w p (discRead src dst ctr)).2 = [(p, .reply ctr 901 dst src)] := by
+    (Disp.processCmd w p (discRead src dst ctr)).2 = [(p, .reply (some ctr) 901 dst src 0 (some 0))] := by
   unfold Disp.processCmd
   simp only [hs, hd]
-  simp [discRead, Disp.panics, Disp.responses, Disp.handle, Disp.handleNM, Disp.wantsRead, Disp.applies, Disp.tag, hnm]
+  simp [discRead, Disp.crashes, Disp.inPanics, Disp.responses, Disp.handle, Disp.handleNM, Disp.wantsRead,
+    Disp.applies, Disp.tag, Disp.replyVal, hnm]
 
 /-- … and this is *not* a corollary of panic freedom: a peer whose source feature is not known any more is
     answered nothing at all, whatever it sends (the wedge). -/
